@@ -357,6 +357,9 @@ pub enum Op {
         m: u16,
         ts: u8,
         apply: Apply,
+        /// 1 = a second newcomer in the same call
+        #[serde(default)]
+        extra: u8,
     },
     Remove {
         m: u16,
@@ -1396,39 +1399,73 @@ impl World {
                 }
                 self.refresh(m);
             }
-            Op::Add { m, ts, apply } => {
+            Op::Add { m, ts, apply, extra } => {
                 let Some(m) = self.active_sel(*m) else {
                     return Ok(());
                 };
-                // next spare that was never invited
-                let spare = (self.first_spare..self.end_spare)
-                    .find(|i| !self.invited.contains(i) && self.clients[*i].mdk.is_some());
-                let Some(j) = spare else {
+                // next spare(s) that were never invited
+                let want = 1 + (*extra).min(1) as usize;
+                let spares: Vec<usize> = (self.first_spare..self.end_spare)
+                    .filter(|i| !self.invited.contains(i) && self.clients[*i].mdk.is_some())
+                    .take(want)
+                    .collect();
+                if spares.is_empty() {
                     return Ok(());
-                };
-                let kp = match Self::make_key_package(&self.clients[j]) {
-                    Ok(k) => k,
-                    Err(_) => return Ok(()),
-                };
+                }
+                let mut kps = vec![];
+                for &j in &spares {
+                    match Self::make_key_package(&self.clients[j]) {
+                        Ok(k) => kps.push(k),
+                        Err(_) => return Ok(()),
+                    }
+                }
+                if spares.len() > 1 {
+                    self.count("op:add_members:several-in-one-call");
+                }
                 let base = self.clients[m].cur.clone();
                 self.set_ts(*ts);
-                let r =
-                    on_mdk!(self.clients[m].mdk(), mm => mm.add_members(&gid, std::slice::from_ref(&kp)));
+                let r = on_mdk!(self.clients[m].mdk(), mm => mm.add_members(&gid, &kps));
                 mdk_core::verif::set_wrapper_created_at(None);
                 match r {
-                    Ok(res) => {
-                        self.invited.insert(j);
-                        self.clients[j].key_packages.push(kp);
-                        let idx = self.publish_commit(
-                            m,
-                            base,
-                            res,
-                            format!("add_members c{j}"),
-                            false,
-                            &[j],
-                        );
+                    Ok(mut res) => {
+                        // invitations are matched to their recipients by the key-package event
+                        // they reference, not by position
+                        if let Some(rumors) = res.welcome_rumors.take() {
+                            let mut ordered: Vec<Option<UnsignedEvent>> = vec![None; spares.len()];
+                            let mut rest = vec![];
+                            for r in rumors {
+                                let e = r
+                                    .tags
+                                    .iter()
+                                    .find(|t| t.kind() == nostr::TagKind::e())
+                                    .and_then(|t| t.content())
+                                    .map(|s| s.to_string());
+                                match e.and_then(|e| kps.iter().position(|k| k.id.to_hex() == e)) {
+                                    Some(k) if ordered[k].is_none() => ordered[k] = Some(r),
+                                    _ => rest.push(r),
+                                }
+                            }
+                            let mut out = vec![];
+                            for o in ordered {
+                                match o {
+                                    Some(r) => out.push(r),
+                                    None => {
+                                        if !rest.is_empty() {
+                                            out.push(rest.remove(0));
+                                        }
+                                    }
+                                }
+                            }
+                            res.welcome_rumors = Some(out);
+                        }
+                        for (&j, kp) in spares.iter().zip(kps.iter()) {
+                            self.invited.insert(j);
+                            self.clients[j].key_packages.push(kp.clone());
+                        }
+                        let who = spares.iter().map(|j| format!("c{j}")).collect::<Vec<_>>().join("+");
+                        let idx = self.publish_commit(m, base, res, format!("add_members {who}"), false, &spares);
                         self.relay[idx].named = Named {
-                            added: vec![self.clients[j].pk_hex()],
+                            added: spares.iter().map(|j| self.clients[*j].pk_hex()).collect(),
                             ..Named::default()
                         };
                         self.count("op:add_members");
